@@ -15,6 +15,7 @@ fn env_u64(name: &str) -> Option<u64> {
 fn main() {
     resolvo_sim::runtime::install_salt_source();
     resolvo_sim::run::install_panic_hook();
+    resolvo_sim::probes::install();
     let args: Vec<String> = std::env::args().collect();
     if args.len() < 2 {
         usage();
@@ -126,6 +127,23 @@ fn main() {
                     let rec = resolvo_sim::run::execute(sc);
                     let v = prop.judge(sc);
                     println!("{i} {k} {:016x} {:016x} {:?}", resolvo_sim::run::digest(&rec), v.key, v.violation.map(|x| x.0));
+                }
+            }
+        }
+        // list runs whose verdict is aborted_other (crashes that belong to another property)
+        "scan-aborted" => {
+            let prop = property(&args[2]).expect("unknown property");
+            let from: u64 = args[3].parse().unwrap();
+            let to: u64 = args[4].parse().unwrap();
+            let batch = env_u64("VERIF_SEED").unwrap_or(DEFAULT_SEED);
+            resolvo_sim::run::set_quiet(true);
+            for i in from..to {
+                let seed = orchestrate::seed_for(batch, prop.id(), i);
+                for (k, sc) in prop.gen(seed, Tier::Quick).iter().enumerate() {
+                    let v = prop.judge(sc);
+                    if v.aborted_other {
+                        println!("{i} {k} {}", v.summary);
+                    }
                 }
             }
         }
